@@ -20,7 +20,11 @@ CONFIG = {
              "..._with_taxa_labels, ..._without_taxa, ..._without_taxa_labels) x suppress_unifurcations x "
              "update_bipartitions x rooting. Exhaustive part: every non-empty subset x every variant x both "
              "suppress settings for every ordered shape with <= 5 (quick) / <= 6 (thorough) leaves. History part: 2-3 "
-             "pruning/extraction steps in a row on the same objects, optionally after an encoding. Non-trivial = K "
+             "pruning/extraction steps in a row on the same objects, optionally after an encoding. internal_taxa part: trees "
+             "(2-7 / 2-14 leaves) whose non-seed internal nodes carry taxa on a drawn mask, a drawn set of leaf and "
+             "internal labels named, flags (leaf, internal) in {(T,F),(F,T),(T,T)} x suppress x rooting: "
+             "prune_taxa_with_labels vs prune_taxa must agree and the surviving original leaves equal the reference "
+             "(non-trivial there = an internal taxon is named and some leaf survives). Non-trivial = K "
              "empties at least one clade or leaves the root (or another internal node) with one child; distinct = "
              "(spec, K, variant, flags)."),
     "exhaustive_note": {"quick": "all ordered shapes with 2-5 leaves x all non-empty leaf subsets x 11 variants x suppress",
@@ -445,7 +449,85 @@ def check_large(ctx, item):
     ctx.cls("large:%s" % item["kind"])
 
 
-SUBCHECKS = {"random": check_case, "exhaustive": check_exh, "history": check_history, "labels": check_labels, "large": check_large}
+@st.composite
+def internal_taxa_cases(draw, max_leaves):
+    # drawn upfront: flags and masks; then the shape
+    lf, inf = draw(st.sampled_from([(True, False), (False, True), (True, True), (False, True), (True, True)]))
+    imask, sel, su = draw(st.integers(0, 2 ** 24)), draw(st.integers(1, 2 ** 30)), draw(st.booleans())
+    spec = draw(shapes.shapes(min_leaves=2, max_leaves=max_leaves, max_arity=4, unifurcations=True))
+    return {"spec": spec, "lf": lf, "inf": inf, "imask": imask, "sel": sel, "su": su,
+            "rooted": draw(st.sampled_from([True, False]))}
+
+
+def check_internal_taxa(ctx, case):
+    """Trees whose internal nodes carry taxa too (read with suppress_internal_node_taxa=False): pruning by label and
+    pruning by the taxa with those labels must agree for every setting of is_apply_filter_to_leaf_nodes /
+    is_apply_filter_to_internal_nodes, and the surviving original leaves are exactly those that were neither named
+    (leaf flag) nor below a named internal node (internal flag).  The seed node never carries a taxon (it has no
+    parent to be removed from)."""
+    import dendropy
+    nodes = shapes.spec_nodes(case["spec"])  # preorder
+    idx = dict((id(s), k) for k, s in enumerate(nodes))
+    lab = {}
+    for k, s in enumerate(nodes):
+        if not s["ch"]:
+            lab[k] = "L%d" % k
+        elif k and (case["imask"] >> (k % 24)) & 1:
+            lab[k] = "I%d" % k
+    named = sorted(l for k, l in lab.items() if (case["sel"] >> (k % 30)) & 1)
+    if not named:
+        named = [lab[max(lab)]]
+    out = {}
+    for s in reversed(nodes):
+        k = idx[id(s)]
+        txt = "(" + ",".join(out[idx[id(c)]] for c in s["ch"]) + ")" if s["ch"] else ""
+        out[k] = txt + lab.get(k, "") + (":%s" % (1 + k % 4) if k else "")
+    newick = ("[&R] " if case["rooted"] else "[&U] ") + out[0] + ";"
+    lf, inf, su = case["lf"], case["inf"], case["su"]
+    # reference: surviving original leaves
+    nset = set(named)
+    dead = set()
+    def mark(s, gone):
+        k = idx[id(s)]
+        if s["ch"]:
+            gone = gone or (inf and lab.get(k) in nset)
+        elif gone or (lf and lab[k] in nset):
+            dead.add(lab[k])
+        for c in s["ch"]:
+            mark(c, gone)
+    mark(nodes[0], False)
+    want = set(l for l in lab.values() if l.startswith("L")) - dead
+    results = []
+    for route in ("labels", "taxa"):
+        t = dendropy.Tree.get(data=newick, schema="newick", suppress_internal_node_taxa=False)
+        try:
+            if route == "labels":
+                t.prune_taxa_with_labels(list(named), suppress_unifurcations=su,
+                             is_apply_filter_to_leaf_nodes=lf, is_apply_filter_to_internal_nodes=inf)
+            else:
+                t.prune_taxa(t.taxon_namespace.get_taxa(labels=list(named)), suppress_unifurcations=su,
+                             is_apply_filter_to_leaf_nodes=lf, is_apply_filter_to_internal_nodes=inf)
+            surv = set(nd.taxon.label for nd in t.preorder_node_iter() if nd.taxon is not None and nd.taxon.label.startswith("L"))
+            results.append(("ok", t.as_string("newick").strip(), surv))
+        except Exception as e:  # compared between the routes, never swallowed: see below
+            results.append(("exc", type(e).__name__, None))
+    where = "%s prune %r leaf=%r internal=%r suppress_unifurcations=%r" % (newick, named, lf, inf, su)
+    ctx.check(results[0][:2] == results[1][:2], "by_label_agrees_with_by_taxon_on_trees_with_internal_taxa",
+              "C08.internal_taxa:labels_vs_taxa", lambda: "%s: by label %r, by taxon %r" % (where, results[0][:2], results[1][:2]))
+    if want:
+        for route, r in zip(("labels", "taxa"), results):
+            ctx.check(r[0] == "ok" and r[2] == want, "surviving_leaves_are_the_unnamed_ones_outside_named_clades",
+                      "C08.internal_taxa:survivors:" + route,
+                      lambda: "%s via %s: got %r want %r" % (where, route, r[0] if r[0] != "ok" else sorted(r[2]), sorted(want)))
+    has_int = any(l.startswith("I") for l in named)
+    ctx.cls("internal_taxa:leaf=%r,internal=%r:%s" % (lf, inf, "internal_taxon_named" if has_int else "only_leaf_taxa_named"))
+    if has_int and want:
+        ctx.nontrivial([newick, named, lf, inf, su])
+    ctx.sample("internal_taxa", {"newick": newick, "named": named, "leaf_flag": lf, "internal_flag": inf, "survivors": sorted(want)})
+
+
+SUBCHECKS = {"random": check_case, "exhaustive": check_exh, "history": check_history, "labels": check_labels, "large": check_large,
+             "internal_taxa": check_internal_taxa}
 
 
 def run(ctx):
@@ -462,3 +544,4 @@ def run(ctx):
                                         ("extract_tree_without_taxa_labels", True, False, False, "half"))]
     runner.run_items(ctx, "large", large, check_large)
     runner.run_given(ctx, "labels", label_cases(8 if quick else 16), check_labels, (1600 if quick else 20000) // ctx.nshards)
+    runner.run_given(ctx, "internal_taxa", internal_taxa_cases(7 if quick else 14), check_internal_taxa, (1600 if quick else 20000) // ctx.nshards)
